@@ -169,7 +169,14 @@ def random_history(d, rng, adapter, nsteps):
         o = d.events[-1]['obs']
         w, h = o['w'], o['h']
         k = rng.random()
-        if k < 0.55:
+        if o['ovf'] and rng.random() < 0.4:
+            # from the overflow position (a character was just printed in the last column): LOCATE to the last column
+            a = {'op': 'locate', 'r': rng.choice([-1, rng.randint(o['top'], o['bot'])]), 'c': w}
+        elif o['bra'] and o['row'] == h and not o['view'] and rng.random() < 0.5:
+            # the cursor was put on the bottom row: a one-row window directly above it, then a line end
+            d.do({'op': 'viewprint', 't': h - 1, 'b': h - 1})
+            a = {'op': 'print', 's': [], 'nl': True}
+        elif k < 0.55:
             a = {'op': 'print', 's': random_string(rng, w, o['col']), 'nl': rng.random() < 0.5}
         elif k < 0.75:
             if rng.random() < 0.8:
